@@ -215,6 +215,38 @@ def rule_I11(ctx):
             raise AnalysisError("I11", where(fn_), "tolerant record loop (try around the element parse) not found")
         handled = names if handled is None else (handled & names)
     ctx.fact("I11", "handled", sorted(handled))
+    # side condition of the frozen entry (get_path, RequestedInvalidSector): the decoded Roland table covers every value a 16-bit
+    # start cluster / link can take
+    fd = ctx.fn(RO + "fat.py", "FatAreaAdapter._decode", "I11")
+    sd_ = {}
+    for a_ in own_nodes(fd):
+        if isinstance(a_, ast.Assign) and len(a_.targets) == 1 and isinstance(a_.targets[0], ast.Name):
+            sd_.setdefault(a_.targets[0].id, []).append(a_.value)
+
+    def _fold11(e, depth=0):
+        if isinstance(e, ast.Name) and len(sd_.get(e.id, [])) == 1 and depth < 4:
+            return _fold11(sd_[e.id][0], depth + 1)
+        if isinstance(e, ast.BinOp):
+            l_, r_ = _fold11(e.left, depth + 1), _fold11(e.right, depth + 1)
+            if isinstance(l_, int) and isinstance(r_, int):
+                return {ast.Add: l_ + r_, ast.Sub: l_ - r_, ast.Mult: l_ * r_}.get(type(e.op))
+            return None
+        try:
+            v_ = ctx.folder.ev(e, fd._module)
+            return v_ if isinstance(v_, int) and not isinstance(v_, bool) else None
+        except Exception:
+            return None
+    tc = [c for c in own_nodes(fd) if isinstance(c, ast.Call) and norm(c.func) == "RolandFileAllocationTable"]
+    size_arg = _fold11(tc[0].args[1]) if len(tc) == 1 and len(tc[0].args) >= 2 else None
+    lens = []
+    for nm_, vs_ in sd_.items():
+        for v_ in vs_:
+            if isinstance(v_, ast.BinOp) and isinstance(v_.op, ast.Mult) and isinstance(v_.left, ast.List) and len(v_.left.elts) == 1 and norm(v_.left.elts[0]).startswith("SectorLink("):
+                lens.append(_fold11(v_.right))
+    ok = size_arg == 0x10000 and lens and all(x_ == 0x10000 for x_ in lens)
+    ctx.ob("I11", tc[0] if tc else fd, "the decoded Roland cluster table has an entry for every 16-bit cluster number (a damaged start cluster is looked up, not out of range)", ok,
+           "" if ok else f"table size {size_arg}, link list length(s) {lens}: a start cluster at or beyond the table raises RequestedInvalidSector, which no Roland record loop swallows",
+           inst="roland-table-covers-16-bit")
 
     def covered(exc):
         if exc in handled or "<bare>" in handled or "Exception" in handled or "BaseException" in handled:
